@@ -646,12 +646,19 @@ def run(chk, args):
         if vals is not None:
             n_ner = n_fin = n_v = 0
             ok = True
+            shown = [0]
+            real_disagree = chk.disagree
+
+            def disagree(what, replay):
+                shown[0] += 1
+                if shown[0] <= 5:
+                    real_disagree(what, replay)
             for (c, o, i), v in zip(pending, vals):
                 chk.traces_validated += 1
                 if i is None:
                     n_ner += 1
                     if v is not True:
-                        chk.disagree("ner_net: model tree differs from the implementation's",
+                        disagree("ner_net: model tree differs from the implementation's",
                                      dict(case=c, observed=o))
                         ok = False
                     continue
@@ -659,24 +666,24 @@ def run(chk, args):
                 e = o["nets"][i]
                 last_failed = o["error"] is not None and i == len(o["nets"]) - 1
                 if wrapb != o["has_wrap"]:
-                    chk.disagree("has_wrap_around_links: model %r, implementation %r" % (wrapb, o["has_wrap"]),
+                    disagree("has_wrap_around_links: model %r, implementation %r" % (wrapb, o["has_wrap"]),
                                  dict(case=c, observed=o))
                     ok = False
                 if e.get("ner") and e["ner"][0] == "n":
                     n_ner += 1
                     if not nerb:
-                        chk.disagree("ner_net (inside route): model tree differs", dict(case=c, observed=o, net=i))
+                        disagree("ner_net (inside route): model tree differs", dict(case=c, observed=o, net=i))
                         ok = False
                 if last_failed:
                     want = 1 if o["error"][0] == "disconnected" else 2
                     if rcls != want:
-                        chk.disagree("route: implementation raised %s, model result class %d"
+                        disagree("route: implementation raised %s, model result class %d"
                                      % (o["error"][:2], rcls), dict(case=c, observed=o, net=i))
                         ok = False
                 elif e.get("final") and e["final"][0] == "n":
                     n_fin += 1
                     if not finb:
-                        chk.disagree("route: final tree of the model (class %d) differs from the implementation's"
+                        disagree("route: final tree of the model (class %d) differs from the implementation's"
                                      % rcls, dict(case=c, observed=o, net=i))
                         ok = False
                     if c["kind"] == "valid":
